@@ -249,7 +249,10 @@ pub assume_specification [ usize::div_ceil ] (a: usize, b: usize) -> (r: usize) 
 pub assume_specification [ u32::div_ceil ] (a: u32, b: u32) -> (r: u32) requires b > 0 ensures r == (a + b - 1) / (b as int);
 
 // =====================================================================================================================
-// theta/bit_pack.rs, by contract: the preconditions are what the real functions need not to panic
+// theta/bit_pack.rs, by contract: the preconditions are what the real functions need not to panic; the postconditions say that
+// the four leaves compute the reference bit stream (packed / unpacked / stream_val above).  They are ASSUMED here and PROVED on the real
+// code, for every width 1..=63 and all inputs, by the Kani harnesses bp_* of kani/theta_bitpack.rs (registry: props C11 C12 C13).
+// BitPacker::new / byte_used / BitUnpacker::new are real bodies, verified here.
 // =====================================================================================================================
 const BLOCK_WIDTH : usize = 8 ;
 
@@ -1646,7 +1649,8 @@ if i < num_entries {
 let rem = num_entries - i ;
 proof {
 assert ( rem * ( entry_bits as usize ) <= 7 * 255 ) by ( nonlinear_arith ) requires rem <= 7 , entry_bits <= 255 ;
-assert ( i == 8 * ( num_entries / 8 ) && rem == num_entries % 8 ) ;
+assert (
+/*@C13.theta.v4_payload*/ i == 8 * ( num_entries / 8 ) && rem == num_entries % 8 ) ;
 assert ( rem * w == rem * ( entry_bits as usize ) ) ;
 }
 let bytes_needed = ( rem * entry_bits as usize ) . div_ceil ( 8 ) ;
